@@ -218,5 +218,7 @@ def run(col, configs, tier):
         guarded(col, rule_special_classification, facts)
         from rules import extra as X2
         guarded(col, X2.rule_overflow_check_unconditional, facts)
+        guarded(col, X2.rule_special_trailing_trim, facts)
+        guarded(col, X2.rule_pattern_before_input, facts)
         for crate in ("lexical_write_float", "lexical_parse_float"):
             guarded(col, O.rule_options_builder, facts, crate)
